@@ -3,6 +3,33 @@
 pub open spec fn map_has<V>(m: &HashMap<Vec<char>, V>, key: Seq<char>, val: Seq<char>) -> bool where V: View<V = Seq<char>> {
     exists|k: Vec<char>| m@.contains_key(k) && k@ == key && (#[trigger] m@[k])@ == val
 }
+// lookup by characters as a function: the value under the key with these characters, if there is one
+pub open spec fn has_key_chars<V>(m: &HashMap<Vec<char>, V>, key: Seq<char>) -> bool { exists|k: Vec<char>| #[trigger] m@.contains_key(k) && k@ == key }
+pub open spec fn mlook(m: &HashMap<Vec<char>, Vec<char>>, key: Seq<char>) -> Option<Seq<char>> {
+    if has_key_chars(m, key) { let k = choose|k: Vec<char>| #[trigger] m@.contains_key(k) && k@ == key; Some(m@[k]@) } else { None }
+}
+// ===== normalisation as a function (C02 C11): longest pattern first over a two-character window; an unmatched character stands
+// for itself.  norm_step gives the number of characters consumed and what they are replaced by
+pub open spec fn norm_step(m: &HashMap<Vec<char>, Vec<char>>, w: Seq<char>) -> (int, Seq<char>) {
+    if w.len() >= 2 && mlook(m, w.take(2)) is Some { (2, mlook(m, w.take(2))->0) }
+    else if mlook(m, w.take(1)) is Some { (1, mlook(m, w.take(1))->0) }
+    else { (1, w.take(1)) }
+}
+pub open spec fn norm_seq(m: &HashMap<Vec<char>, Vec<char>>, w: Seq<char>) -> Seq<char>
+    decreases w.len()
+{
+    if w.len() == 0 { Seq::empty() } else { norm_step(m, w).1 + norm_seq(m, w.skip(norm_step(m, w).0)) }
+}
+// the function agrees with the relation that `get` is specified by
+pub proof fn lemma_mlook(m: &HashMap<Vec<char>, Vec<char>>, key: Seq<char>, val: Seq<char>)
+    requires map_has(m, key, val)
+    ensures mlook(m, key) == Some(val)
+{
+    let k1 = choose|k: Vec<char>| m@.contains_key(k) && k@ == key && (#[trigger] m@[k])@ == val;
+    assert(m@.contains_key(k1) && k1@ == key);
+    assert(has_key_chars(m, key));
+    assert forall|k: Vec<char>| #[trigger] m@.contains_key(k) && k@ == key implies k == k1 by { vax::vec_char_ext(k, k1); }
+}
 mod vax {
     use vstd::prelude::*;
     use vstd::std_specs::hash::*;
@@ -10,6 +37,8 @@ mod vax {
     pub broadcast axiom fn vec_key_model() ensures #[trigger] obeys_key_model::<Vec<char>>();
     pub broadcast axiom fn borrowed_vec_key<V>(m: Map<Vec<char>, V>, q: &[char], v: V)
         ensures #[trigger] maps_borrowed_key_to_value::<Vec<char>, V, [char]>(m, q, v) == (exists|k: Vec<char>| #[trigger] m.contains_key(k) && k@ == q@ && m[k] == v);
+    // two vectors with the same characters are the same key (Vec<char>: Eq is element-wise equality)
+    pub axiom fn vec_char_ext(a: Vec<char>, b: Vec<char>) ensures a@ == b@ ==> a == b;
     pub broadcast axiom fn borrowed_vec_key_present<V>(m: Map<Vec<char>, V>, q: &[char])
         ensures #[trigger] contains_borrowed_key::<Vec<char>, V, [char]>(m, q) == (exists|k: Vec<char>| #[trigger] m.contains_key(k) && k@ == q@);
 }
